@@ -17,6 +17,7 @@ pub fn dispatch(f: &[&str]) -> Option<String> {
     let n = |i: usize| -> u64 { f[i].parse::<u64>().unwrap() };
     let z = |i: usize| -> isize { f[i].parse::<isize>().unwrap() };
     Some(match f[0] {
+        "defer" => defer_run(f[1]),
         "it_drop" => nlist((0..n(1)).drop(z(2))),
         "it_slice" => nlist((0..n(1)).slice(z(2), z(3))),
         "it_first" => match (0..n(1)).first() {
@@ -98,4 +99,65 @@ pub fn dispatch(f: &[&str]) -> Option<String> {
         },
         _ => return None,
     })
+}
+
+
+// ---- defer: programs of nested scopes run with real `defer(..)` guards held in stack frames ----
+#[derive(Debug)]
+enum Stmt {
+    Defer(u32),
+    Log(u32),
+    Scope(Vec<Stmt>),
+    Return,
+    Panic,
+}
+
+fn parse_stmts(toks: &mut std::iter::Peekable<std::str::SplitWhitespace>) -> Vec<Stmt> {
+    let mut out = vec![];
+    while let Some(t) = toks.next() {
+        match t {
+            "}" => break,
+            "{" => out.push(Stmt::Scope(parse_stmts(toks))),
+            "R" => out.push(Stmt::Return),
+            "P" => out.push(Stmt::Panic),
+            _ => {
+                let n: u32 = t[1..].parse().unwrap();
+                out.push(if t.starts_with('D') { Stmt::Defer(n) } else { Stmt::Log(n) });
+            },
+        }
+    }
+    out
+}
+
+// the rest of a scope; a guard created here lives until this frame is left: normally, by `?`, or by unwinding
+fn run_scope(stmts: &[Stmt], log: &std::cell::RefCell<Vec<u32>>) -> Result<(), ()> {
+    match stmts.split_first() {
+        None => Ok(()),
+        Some((Stmt::Defer(id), rest)) => {
+            let _guard = defer(|| log.borrow_mut().push(*id));
+            run_scope(rest, log)
+        },
+        Some((Stmt::Log(id), rest)) => {
+            log.borrow_mut().push(*id);
+            run_scope(rest, log)
+        },
+        Some((Stmt::Scope(body), rest)) => {
+            run_scope(body, log)?;
+            run_scope(rest, log)
+        },
+        Some((Stmt::Return, _)) => Err(()),
+        Some((Stmt::Panic, _)) => panic!("defer program panic"),
+    }
+}
+
+fn defer_run(prog: &str) -> String {
+    let stmts = parse_stmts(&mut prog.split_whitespace().peekable());
+    let log = std::cell::RefCell::new(vec![]);
+    let r = std::panic::catch_unwind(std::panic::AssertUnwindSafe(|| run_scope(&stmts, &log)));
+    let e = match r {
+        Ok(Ok(())) => "N",
+        Ok(Err(())) => "R",
+        Err(_) => "P",
+    };
+    format!("log={};exit={}", log.borrow().iter().map(|x| x.to_string()).collect::<Vec<_>>().join(","), e)
 }
